@@ -64,8 +64,13 @@ Definition orch_expand (f : api) : list api :=
   match f with
   | ApiOrchStart => [ApiAgentStart; ApiRun; ApiAddComputation; ApiRun]
       (* _own_agt.start(); _own_agt.run(directory); _own_agt.add_computation(mgt); _own_agt.run(mgt) *)
-  | ApiOrchDeploy | ApiOrchStartReplication | ApiOrchMgtMethod | ApiOrchProcessEvent => [ApiPostMsg]
-  | ApiOrchRun => [ApiPostMsg; ApiCleanShutdown]   (* + Timer creation, waits, join *)
+  | ApiOrchDeploy | ApiOrchStartReplication | ApiOrchMgtMethod => [ApiPostMsg]
+  | ApiOrchProcessEvent => [ApiPostMsg]
+      (* _process_event (caller of run() or a threading.Timer): a scenario event is handed to the
+         management computation ONLY as a posted '_orchestrator_scenario_event' message *)
+  | ApiOrchRun => [ApiPostMsg; ApiPostMsg; ApiCleanShutdown]
+      (* posts the run request; with a scenario calls _process_event, which posts the first
+         non-delay events through _mgt_method; + Timer creation, waits, join *)
   | ApiOrchStopAgents | ApiOrchOnTimeout => [ApiPostMsg]
   | ApiOrchStop => [ApiStop]
   | g => [g]
